@@ -26,7 +26,7 @@ ASSUMPTIONS = ["no timing upper bound is asserted except the 20 s watchdog; late
 
 
 def examples(tier):
-    return 1200 if tier == "quick" else 12000
+    return 1600 if tier == "quick" else 30000
 
 
 def budget_s(tier):
